@@ -182,7 +182,7 @@ def _q_scc(i):
 
 def _q_mixed(i):
     return [[['scc'], ['scc_partial', 1], ['scc_of', 'reverse', []], ['scc_of', 'clone', []],
-             ['scc_partial', 0], ['scc_of', 'subgraph', [0, 1, 2]]][i % 6], ['scc']][:1 + i % 2]
+             ['scc_partial', 0], ['scc_of', 'subgraph', [0, 1, 2]], ['scc_nested']][i % 7], ['scc']][:1 + i % 2]
 
 
 def history_shard(st, shard, nshards, payload):
@@ -253,7 +253,7 @@ def history_random_shard(st, shard, nshards, payload):
             st.sample(inp, cls='random-history')
         return check_history(inp)
 
-    strat = ghist.st_history(['scc', 'scc', 'scc_partial', 'scc_of', 'fork', 'clone'], max_nodes=7, max_ops=40)
+    strat = ghist.st_history(['scc', 'scc', 'scc_partial', 'scc_nested', 'scc_of', 'fork', 'clone'], max_nodes=7, max_ops=40)
     f = core.hyp_run(payload['seed'] * 1000 + 500 + shard, strat, body, payload['n'])
     if f is not None:
         st.failure = f
